@@ -974,3 +974,28 @@ Lemma agreement_nonvacuous :
 Proof.
   repeat split; eexists; (split; [vm_compute; reflexivity|split; [vm_compute; reflexivity|reflexivity]]).
 Qed.
+
+(* ================================================================== statements without [safe] *)
+
+Lemma search_area_no_panic lower pf gj_ok sec_ok lookup cmd fence clip outb vs :
+  search_area lower pf gj_ok sec_ok lookup cmd fence clip outb vs <> Panic /\
+  search_area lower pf gj_ok sec_ok lookup cmd fence clip outb vs <> NoFuel.
+Proof.
+  pose proof (search_area_safe lower pf gj_ok sec_ok lookup cmd fence clip outb vs) as H.
+  destruct (search_area lower pf gj_ok sec_ok lookup cmd fence clip outb vs); cbn in H;
+    try contradiction; split; discriminate.
+Qed.
+
+Lemma test_side_no_panic lower pf gj_ok sec_ok lookup :
+  (forall dc vs, parse_area lower pf gj_ok sec_ok lookup dc vs <> Panic /\
+                 parse_area lower pf gj_ok sec_ok lookup dc vs <> NoFuel) /\
+  (forall isect a1nil vs, test_tail lower pf gj_ok sec_ok lookup isect a1nil vs <> TPanic /\
+                          test_tail lower pf gj_ok sec_ok lookup isect a1nil vs <> TNoFuel).
+Proof.
+  split.
+  - intros dc vs. pose proof (parse_area_safe lower pf gj_ok sec_ok lookup dc vs) as H.
+    destruct (parse_area lower pf gj_ok sec_ok lookup dc vs); cbn in H; try contradiction; split; discriminate.
+  - intros isect a1nil vs. pose proof (test_tail_safe lower pf gj_ok sec_ok lookup isect a1nil vs) as H.
+    destruct (test_tail lower pf gj_ok sec_ok lookup isect a1nil vs); cbn in H; try contradiction;
+      split; discriminate.
+Qed.
